@@ -171,6 +171,7 @@ fn main() {
     run.sub = sub;
     run.write_evidence = write_evidence;
     run.cold = cold;
+    run.cold_singles = prop.cold_singles;
     let r = std::panic::catch_unwind(std::panic::AssertUnwindSafe(|| {
         if run.sub.is_none() && run.cold.is_none() && std::env::var("VERIF_SINGLE_PROFILE").is_err() {
             run.cold_children()?;
